@@ -384,6 +384,7 @@ func ledgerMain(s ledgerSpec, args []string) int {
 		total.Events += st.Events
 		total.Blocked += st.Blocked
 		total.Diverged += st.Diverged
+		total.Unconfirmed = append(total.Unconfirmed, st.Unconfirmed...)
 		if st.DepthDone > total.DepthDone {
 			total.DepthDone = st.DepthDone
 		}
